@@ -203,7 +203,7 @@ func c09Pubsub(c *vf.Ctx) {
 			// (b) a direct announcement at the relay R for publisher P
 			P := EdIdent(r)
 			cid2 := c09Cid(720000 + i)
-			if err := rcR.Direct(context.Background(), cid2, peer.AddrInfo{ID: P.ID, Addrs: []multiaddr.Multiaddr{pubAddr}}); err != nil {
+			if err := rcR.Direct(context.Background(), cid2, peer.AddrInfo{ID: P.ID, Addrs: []multiaddr.Multiaddr{pubAddr, privAddr}}); err != nil {
 				c.Fail(sub, i, "direct-error", err.Error(), wit())
 				return
 			}
@@ -211,6 +211,19 @@ func c09Pubsub(c *vf.Ctx) {
 			if !got {
 				c.Fail(sub, i, "republication-not-received", "B never saw the relay's republication", wit())
 				return
+			}
+			// address filtering applies to republished announcements as to any other
+			rPriv, rPub := false, false
+			for _, ad := range b.Addrs {
+				if ad.Equal(privAddr) {
+					rPriv = true
+				}
+				if ad.Equal(pubAddr) {
+					rPub = true
+				}
+			}
+			if !rPub || rPriv == filterB {
+				c.Fail(sub, i, "republished-announcement-address-filtering", fmt.Sprintf("addrs %v filter=%v", maStrings(b.Addrs), filterB), wit())
 			}
 			if b.PeerID != P.ID {
 				key := "republication-misattributed"
